@@ -4,9 +4,9 @@ from auction_common import impl_exec, impl_exec_multi, nontrivial, classify  # n
 
 SHARDS = {'quick': 1, 'thorough': 16}
 TITLE = 'Auction proceeds clockwise from the dealer and ends exactly when it must'
-LEAN_TARGETS = ['BridgeVerif.Props.C02', 'BridgeVerif.Translated.Auction']
-AUDIT_PROPS = ['C02', 'Translated.Auction']
-REQUIRED = ['translated_run_is_model', 'translated_has_done_is_model', 'Translated.Auction.init_translated', 'Translated.Auction.take_bid_translated', 'Translated.Auction.run_translated', 'Translated.Auction.contract_translated',
+LEAN_TARGETS = ['BridgeVerif.Props.C02', 'BridgeVerif.Translated.Auction', 'BridgeVerif.Props.C02t']
+AUDIT_PROPS = ['C02', 'Translated.Auction', 'C02t']
+REQUIRED = ['C02t.translated_run_is_model', 'C02t.translated_has_done_is_model', 'Translated.Auction.init_translated', 'Translated.Auction.take_bid_translated', 'Translated.Auction.run_translated', 'Translated.Auction.contract_translated',
             'turn_rotates', 'active_is_turn', 'per_seat_is_share', 'finishes_iff_ended', 'over_iff_ended_law',
             'after_end_raises_and_unchanged', 'after_end_run_unchanged', 'auction_terminates', 'bound_is_attained']
 RULE = ('same campaign as C01 with a pass-heavy mix (three opening passes then a bid, passes separated by doubles, '
